@@ -37,7 +37,13 @@ def gen_batch(rng, tier, nreq=None, kinds=None, twins_ok=True):
                     'm400': rng.choice([18, 20, 23, 24, 25.5, 27]), 'mhard': 45, 'h1': 45, 'h2': 50},
            'penalties': rng.random() < 0.5, 'offset200': rng.choice([0, 0, 1, -1]),
            'roadm': {'add_drop_osnr': rng.choice([33, 38, 38, 45]), 'pdl': rng.choice([0, 0.5]), 'pmd': rng.choice([0, 3e-12])},
-           'p_design': rng.choice([None, 2, 2, 3]), 'sat_offset': rng.choice([3, 5, 5])}
+           'p_design': rng.choice([None, 2, 2, 3]), 'sat_offset': rng.choice([3, 5, 5]),
+           # SI WITHOUT the optional tx_power_dbm: a request without tx_power then launches its own output-power
+           'no_tx_default': rng.random() < 0.35,
+           # ROADMs of a library type whose impairment profiles have TWO frequency ranges with different values
+           'multi_roadm': rng.random() < 0.35}
+    if lib['no_tx_default']:
+        lib['p_design'] = None
     k = nreq or rng.choice([2, 3, 4, 5, 6, 8] if tier == 'quick' else [2, 3, 4, 5, 6, 8, 10])
     reqs = []
     for i in range(k):
@@ -113,7 +119,36 @@ def gen_batch(rng, tier, nreq=None, kinds=None, twins_ok=True):
             reqs.insert(i, g)
             i = rng.randrange(i + 1, len(reqs) + 1)
         twins['power'].append([g['id'] for g in group])
-    return {'n': n, 'edges': elist, 'lib': lib, 'requests': reqs, 'twins': twins}
+    fresh_pick = None
+    # LOW-POWER-FIRST: with an SI without tx_power_dbm, a request with a very low output-power (-30 dBm: below the add ROADM's
+    # target after the add loss) computed BEFORE requests that state no power at all
+    if twins_ok and lib['no_tx_default'] and rng.random() < 0.7:
+        a = gen_request(rng, f'r{len(reqs)}', 'fixed', n, reqs)
+        a['mode'], a['spacing'], a['nm'], a['power'] = 'm100', 50e9, None, rng.choice([1e-6, 1e-6, 3.16e-6])
+        b = copy.deepcopy(a)
+        b['id'], b['power'] = f'r{len(reqs) + 1}', rng.choice([None, None, 1e-3])
+        if rng.random() < 0.5:
+            b['src'], b['dst'] = rng.sample(range(n), 2)
+        i = rng.randrange(len(reqs) + 1)
+        reqs.insert(i, a)
+        reqs.insert(i + 1, b)
+        twins['lowpower'] = [[a['id'], b['id']]]
+        fresh_pick = b['id']
+    # EQUAL-COUNT GRID TWINS: two consecutive requests with the SAME number of carriers on different grids (50 / 100 GHz), so that
+    # their carriers fall into different frequency ranges of the ROADM profiles
+    if twins_ok and lib['multi_roadm'] and rng.random() < 0.7:
+        a = gen_request(rng, f'r{len(reqs)}', 'fixed', n, reqs)
+        a['mode'], a['nm'], a['bidir'] = 'm100', None, rng.random() < 0.3
+        a['nch'] = rng.choice([3, 4])
+        b = copy.deepcopy(a)
+        b['id'] = f'r{len(reqs) + 1}'
+        a['spacing'], b['spacing'] = (50e9, 100e9) if rng.random() < 0.6 else (100e9, 50e9)
+        i = rng.randrange(len(reqs) + 1)
+        reqs.insert(i, a)
+        reqs.insert(i + 1, b)
+        twins['grid'] = [[a['id'], b['id']]]
+        fresh_pick = b['id']
+    return {'n': n, 'edges': elist, 'lib': lib, 'requests': reqs, 'twins': twins, 'fresh_pick': fresh_pick}
 
 
 def gen_request(rng, rid, kind, n, earlier):
@@ -154,6 +189,16 @@ def gen_request(rng, rid, kind, n, earlier):
         m = 4 * math.ceil(r['spacing'] / 50e9)
         r['nm'] = [[-100 + 40 * len(earlier), m], [100 - 40 * len(earlier), m]]
         r['bw'] = 200e9
+        u = rng.random()
+        if u < 0.35:      # user list with N NOT ascending and different M per slot (the (N, M) pairing must survive)
+            r['nm'] = [[100 - 40 * len(earlier), 2 * m], [-100 + 40 * len(earlier), m]]
+            r['bw'] = 300e9
+        elif u < 0.55:    # a slot centred exactly on 193.1 THz: N = 0
+            r['nm'] = [[0, m]]
+            r['bw'] = 100e9
+        elif u < 0.75:    # slots straddling 0, one of them N = 0, not ascending
+            r['nm'] = [[32, m], [0, m]] if rng.random() < 0.6 else [[0, m], [-32, 2 * m]]
+            r['bw'] = 200e9
     elif kind == 'dup':
         base = [e for e in earlier if e['kind'] in ('fixed', 'dup', 'dense') and e['mode'] is not None]
         if base:
@@ -200,9 +245,39 @@ def build(case):
     lib = case['lib']
     si = {'power_dbm': lib['p_design'], 'tx_power_dbm': lib['p_design']} if lib.get('p_design') is not None else None
     doc = nets_g.library_doc(library(lib), margin=lib['margin'], roadm=lib['roadm'], si=si)
+    if lib.get('no_tx_default'):
+        doc['SI'][0].pop('tx_power_dbm', None)
+    topo = nets_g.mesh_topo(case['n'] + 2, case['edges'])
+    if lib.get('multi_roadm'):
+        doc['Roadm'].append(multi_roadm(lib))
+        for e in topo['elements']:
+            if e['type'] == 'Roadm':
+                e['type_variety'] = 'gmulti'
     eq = nets_g.build_equipment(doc)
-    net = nets_g.build_network(nets_g.mesh_topo(case['n'] + 2, case['edges']), eq)
+    net = nets_g.build_network(topo, eq)
     return {'eq': eq, 'net': net, 'doc': doc}
+
+
+def multi_roadm(lib):
+    """library ROADM type whose add / drop / express profiles have two frequency ranges (split 225 GHz above the lower edge of
+    the transceiver band) with different roadm-osnr, PDL and max loss"""
+    split = lib['band'][0] + 225e9
+
+    def ranges(osnr, ml):
+        out = []
+        for i, (lo, hi) in enumerate(((186e12, split), (split, 198e12))):
+            d = {'frequency-range': {'lower-frequency': lo, 'upper-frequency': hi}, 'roadm-pmd': 0, 'roadm-cd': 0,
+                 'roadm-pdl': [0.0, 1.5][i], 'roadm-inband-crosstalk': 0, 'roadm-maxloss': ml[i]}
+            if osnr is not None:
+                d['roadm-osnr'] = osnr[i]
+            out.append(d)
+        return out
+    return {'type_variety': 'gmulti', 'target_pch_out_db': -20, 'add_drop_osnr': 38, 'pmd': 0, 'pdl': 0,
+            'restrictions': {'preamp_variety_list': [], 'booster_variety_list': []},
+            'roadm-path-impairments': [
+                {'roadm-path-impairments-id': 0, 'roadm-express-path': ranges(None, [0.0, 3.0])},
+                {'roadm-path-impairments-id': 1, 'roadm-add-path': ranges([45.0, 31.0], [0.0, 2.0])},
+                {'roadm-path-impairments-id': 2, 'roadm-drop-path': ranges([44.0, 30.0], [0.0, 0.0])}]}
 
 
 def req_doc(r):
